@@ -10,12 +10,12 @@ SIGS = ["()", "(int)", "(std::string)", "(const std::string&)", "(int, std::stri
 
 
 def match_sets():
-    return [[i for i in range(1, len(NAMES)) if re.fullmatch(rx, NAMES[i])] for rx in REGEXES]
+    return [[i for i in range(0, len(NAMES)) if re.fullmatch(rx, NAMES[i])] for rx in REGEXES]   # name 0 is the empty string
 
 
 def rand_key(rng, keys):
     """a concrete key: often an existing key, a prefix or an extension of one (prefix/extension cross-talk)"""
-    pool = [1, 2, 4, 5, 6, 7, 8, 9] if rng.chance(3, 4) else ([11, 12, 13, 1, 13, 11] if rng.chance(1, 3) else list(range(1, len(NAMES))))
+    pool = [0, 1, 8, 0, 4] if rng.chance(1, 10) else [1, 2, 4, 5, 6, 7, 8, 9] if rng.chance(3, 4) else ([11, 12, 13, 1, 13, 11] if rng.chance(1, 3) else list(range(1, len(NAMES))))
     if keys and rng.chance(1, 2):
         k = list(rng.choice(keys))
         r = rng.below(4)
